@@ -202,6 +202,11 @@ def run(tier):
     res2 = C.tlc('Cmdline', 'MC_Cmdline_pairs.cfg', simulate=sim, depth=40, workers=8)
     chk.add_tlc(res2)
     runs = [res1, res2]
+    # liveness under weak fairness: every run of the pipeline ends (Termination)
+    rl = C.tlc('Cmdline', 'MC_Cmdline_live.cfg', name='cmdline-live')
+    chk.add_tlc(rl)
+    if rl.violated or not rl.ok:
+        chk.violation(dict(kind='spec-liveness', property='Termination'), dict(tail=rl.out[-2000:]))
     if tier != 'quick':
         res3 = C.tlc('Cmdline', 'MC_Cmdline_triples.cfg', simulate='num=3000', depth=40, workers=8)
         chk.add_tlc(res3)
